@@ -142,17 +142,32 @@ func zzH_C17_scanner() {
 		if n >= 2 {
 			zz.Reach("scanned 2+ rows")
 		}
-	case 1: // wrong arity
-		zz.Assert(!sc.Scan(ctx, &k), "wrong arity is rejected")
-		zz.Assert(sc.Err() != nil, "wrong arity is reported as an error")
-		zz.Assert(m.Reads == 0, "no row is consumed by a rejected Scan")
-		zz.Reach("arity rejected")
-	case 2: // wrong type
-		var s string
-		zz.Assert(!sc.Scan(ctx, &k, &s), "wrong column type is rejected")
-		zz.Assert(sc.Err() != nil, "wrong column type is reported as an error")
-		zz.Assert(m.Reads == 0, "no row is consumed by a rejected Scan")
-		zz.Reach("type rejected")
+	case 1, 2: // wrong arity / wrong type, possibly after some good scans
+		maxGood := n
+		if maxGood > 2 {
+			maxGood = 2
+		}
+		good := zz.AnyIntIn("goodScansFirst", 0, maxGood)
+		for i := 0; i < good; i++ {
+			zz.Assert(sc.Scan(ctx, &k, &v), "a good Scan succeeds")
+			zz.Assert(zz.And(k == m.Keys[i], v == m.Vals[i]), "Scan yields the rows once each, in order")
+		}
+		if good > 0 {
+			zz.Reach("bad destination after good scans")
+		}
+		reads := m.Reads
+		if mode == 1 {
+			zz.Assert(!sc.Scan(ctx, &k), "wrong arity is rejected")
+			zz.Assert(sc.Err() != nil, "wrong arity is reported as an error")
+			zz.Reach("arity rejected")
+		} else {
+			var s string
+			zz.Assert(!sc.Scan(ctx, &k, &s), "wrong column type is rejected")
+			zz.Assert(sc.Err() != nil, "wrong column type is reported as an error")
+			zz.Reach("type rejected")
+		}
+		zz.Assert(m.Reads == reads, "no row is consumed by a rejected Scan")
+		zz.Assert(!sc.Scan(ctx, &k, &v), "the scanner stays failed after a rejected Scan")
 	case 3: // Scanv
 		var gk, gv []int64
 		for c := 0; c < 4; c++ {
